@@ -34,7 +34,8 @@ Inductive werr :=
 | E_Inner                    (* 4 the error of the wrapped body *)
 | E_NoValue                  (* 5 "trailers couldn't parse value" (no ':' in a line) *)
 | E_Name                     (* 6 "Unable to parse HeaderName" *)
-| E_Value.                   (* 7 "Unable to parse HeaderValue" *)
+| E_Value                    (* 7 "Unable to parse HeaderValue" *)
+| E_NoTrailers.              (* 8 "unexpected EOF, missing trailers" (fix c815a16a; only [iter_x] below produces it) *)
 
 (* ---------- find_trailers ---------- *)
 Inductive ft :=
@@ -311,6 +312,7 @@ Definition werr_tr (e : werr) : tr :=
   | E_NoValue => Nd [Nn 5]
   | E_Name => Nd [Nn 6]
   | E_Value => Nd [Nn 7]
+  | E_NoTrailers => Nd [Nn 8]
   end.
 Definition out_tr (o : out) : tr :=
   match o with
@@ -395,3 +397,295 @@ Fixpoint name_digits (k : nat) (i : N) : list N :=
 Definition nth_name (i : N) : list N := 120 :: name_digits 4 i.
 Fixpoint many_lines (n : nat) (i : N) : hm :=
   match n with O => [] | S n' => (nth_name i, [49]) :: many_lines n' (i + 1) end.
+
+(* ==========================================================================================
+   THE CURRENT CODE (second audit; fixes c815a16a and 2dcb76d4).
+   The definitions above model GrpcWebCall as it was before fix c815a16a and are kept as they
+   are (Props/C16.v states a theorem about [run]; on complete bodies [run] and [run_x] agree,
+   Proofs/WebClient.v run_x_run).  What follows is the model of the code as it is now and is what
+   the harness h_webclient evaluates:
+     - the field `expect_trailers` (fix c815a16a): set when message frames are handed out; at the
+       end of the wrapped body, with nothing buffered and no trailers, it turns the clean end into
+       Err("unexpected EOF, missing trailers"); handing out the trailers sets the direction to
+       Empty; is_end_stream additionally requires !expect_trailers;
+     - `current_trailers.extend(trailers)` (HTTP trailers of the wrapped body merged into the
+       trailers of an in-body trailers frame) can overflow http::HeaderMap: explicit OPanic;
+     - Body::size_hint (fix 2dcb76d4);
+     - the caller's view: tonic's client::Grpc / Streaming (Model/Call.v, Model/Decoder.v)
+       reading the body that this layer returns ([obs_stack]).
+   ========================================================================================== *)
+From Verif Require Gen.StatusTables Model.Status Model.Decoder Model.Call.
+
+(* ---------- HeaderMap::extend(HeaderMap) ---------- *)
+(* the distinct names of a map in the order of their first occurrence: the buckets of
+   http::HeaderMap, and the order in which `extend` meets the names of its argument *)
+Definition names_of (m : hm) : list hname :=
+  fold_left (fun acc e => if existsb (bytes_eqb (fst e)) acc then acc else acc ++ [fst e]) m [].
+
+(* Extend<(Option<HeaderName>, T)>::extend: the up-front reserve is clamped to the capacity and
+   cannot fail; every NAMED item then goes through try_entry2, which starts with
+   try_reserve_one: with HM_MAX_NAMES names in the map that has to grow beyond MAX_SIZE and
+   `.expect("size overflows MAX_SIZE")` fires - for a name the map already holds as well.
+   [known] = the names in the map, [ks] = the names still to come.  true = panic *)
+Fixpoint extend_walk (known : list hname) (ks : list hname) : bool :=
+  match ks with
+  | [] => false
+  | k :: r =>
+      if nlen known =? HM_MAX_NAMES then true
+      else extend_walk (if existsb (bytes_eqb k) known then known else known ++ [k]) r
+  end.
+Definition extend_panics (cur t : hm) : bool := extend_walk (names_of cur) (names_of t).
+
+(* ---------- GrpcWebCall state with `expect_trailers` ---------- *)
+Record xst := mkX {
+  xs : st;                   (* decoded, trailers, inner_done, direction *)
+  expect : bool              (* expect_trailers *)
+}.
+Definition init_x : xst := mkX init false.
+Definition x_with (X : xst) (s : st) : xst := mkX s (expect X).
+
+Inductive hand_x :=
+| XRet (o : out) (X : xst)
+| XCont (X : xst)
+| XFall (X : xst).
+
+(* the first half of a loop iteration ([hand_out]); the branch that hands out message frames
+   also sets `*this.expect_trailers = true` *)
+Definition hand_out_x (X : xst) : hand_x :=
+  match hand_out (xs X) with
+  | HRet (OData d) s' => XRet (OData d) (mkX s' true)
+  | HRet o s' => XRet o (x_with X s')
+  | HCont s' => XCont (x_with X s')
+  | HFall s' => XFall (x_with X s')
+  end.
+
+Inductive step_x :=
+| RetX (o : out) (X : xst) (i : inner)
+| ContX (X : xst) (i : inner).
+
+(* one iteration of the `loop` in poll_frame, every branch *)
+Definition iter_x (X : xst) (i : inner) : step_x :=
+  match hand_out_x X with
+  | XRet o X' => RetX o X' i
+  | XCont X' => ContX X' i
+  | XFall X =>
+      let s := xs X in
+      if inner_done s then
+        if nonempty (decoded s) then RetX (OErr E_EOF) (x_with X (set_empty s)) i
+        else
+          match trailers s with
+          | Some t => RetX (OTrailers t) (x_with X (set_empty (set_trailers s None))) i
+          | None =>
+              if expect X then RetX (OErr E_NoTrailers) (x_with X (set_empty s)) i
+              else RetX ONone X i
+          end
+      else
+        let '(a, i') := poll_inner i in
+        match a with
+        | APending => RetX OPending X i'
+        | AData d => ContX (x_with X (set_decoded s (decoded s ++ d))) i'
+        | ATrailers t =>
+            match trailers s with
+            | Some cur =>
+                if extend_panics cur t then RetX OPanic X i'
+                else ContX (x_with X (set_trailers s (Some (hm_extend cur t)))) i'
+            | None => ContX (x_with X (set_trailers s (Some t))) i'
+            end
+        | AEnd => ContX (x_with X (set_done s)) i'
+        | AErr => RetX (OErr E_Inner) (x_with X (set_empty s)) i'
+        end
+  end.
+
+Fixpoint loop_x (fuel : nat) (X : xst) (i : inner) : out * xst * inner :=
+  match fuel with
+  | O => (OOutOfFuel, X, i)
+  | S f =>
+      match iter_x X i with
+      | RetX o X' i' => (o, X', i')
+      | ContX X' i' => loop_x f X' i'
+      end
+  end.
+
+(* Body::poll_frame of GrpcWebCall (client response), as it is now *)
+Definition poll_frame_x (fuel : nat) (X : xst) (i : inner) : out * xst * inner :=
+  match dir (xs X) with
+  | Decode => loop_x fuel X i
+  | Empty => (ONone, X, i)
+  end.
+
+Fixpoint drain_x (n : nat) (X : xst) (i : inner) : list out * xst * inner :=
+  match n with
+  | O => ([OOutOfFuel], X, i)
+  | S n' =>
+      match poll_frame_x (fuel_of i) X i with
+      | (OPending, X', i') => drain_x n' X' i'
+      | (OData d, X', i') => let '(l, X'', i'') := drain_x n' X' i' in (OData d :: l, X'', i'')
+      | (OTrailers t, X', i') => let '(l, X'', i'') := drain_x n' X' i' in (OTrailers t :: l, X'', i'')
+      | (o, X', i') => ([o], X', i')
+      end
+  end.
+
+Fixpoint polls_x (k : nat) (X : xst) (i : inner) : list out * xst * inner :=
+  match k with
+  | O => ([], X, i)
+  | S k' =>
+      let '(o, X', i') := poll_frame_x (fuel_of i) X i in
+      let '(l, X'', i'') := polls_x k' X' i' in (o :: l, X'', i'')
+  end.
+
+Definition run_x (evs : list ev) : list out :=
+  fst (fst (drain_x (poll_cap evs) init_x (mk_inner evs))).
+
+(* ---------- Body::size_hint (fix 2dcb76d4) ---------- *)
+(* the client response body never forwards the hint of the wrapped body (its DATA is the
+   wrapped body's minus the trailers frame): SizeHint::default() while decoding, exactly 0 once
+   the direction is Empty *)
+Definition call_size_hint (X : xst) : N * option N :=
+  match dir (xs X) with
+  | Empty => (0, Some 0)
+  | Decode => (0, None)
+  end.
+Definition hint_obs (h : N * option N) : tr := Nd [Nn (fst h); oopt Nn (snd h)].
+
+(* what the harness records (compare [obs_client]): in addition the size hint before the first
+   poll and after the last one *)
+Definition obs_client_x (evs : list ev) : tr :=
+  let '(l, X, i) := drain_x (poll_cap evs) init_x (mk_inner evs) in
+  let '(l2, X2, i2) := if is_final (last l OPanic) then polls_x 2 X i else ([], X, i) in
+  Nd [olist out_tr l; olist out_tr l2; Nn (i_polls i2); Nn (i_ends i2);
+      hint_obs (call_size_hint init_x); hint_obs (call_size_hint X2)].
+
+(* ---------- Body::is_end_stream, as it is now ---------- *)
+Definition call_is_end_stream_x (mode : N) (X : xst) (i : inner) : bool :=
+  match dir (xs X) with
+  | Empty => true
+  | Decode =>
+      inner_eos mode (i_evs i) && negb (nonempty (decoded (xs X)))
+      && match trailers (xs X) with None => true | Some _ => false end
+      && negb (expect X)
+  end.
+
+(* the hyper-like consumer *)
+Fixpoint hyper_client_x (n : nat) (mode : N) (X : xst) (i : inner) : list out * bool * xst * inner :=
+  match n with
+  | O => ([OOutOfFuel], false, X, i)
+  | S n' =>
+      match poll_frame_x (fuel_of i) X i with
+      | (OPending, X', i') => hyper_client_x n' mode X' i'
+      | (OData d, X', i') =>
+          if call_is_end_stream_x mode X' i' then ([OData d], true, X', i')
+          else let '(l, b, X'', i'') := hyper_client_x n' mode X' i' in (OData d :: l, b, X'', i'')
+      | (o, X', i') => ([o], false, X', i')
+      end
+  end.
+Definition obs_client_hyper_x (mode : N) (evs : list ev) : tr :=
+  if call_is_end_stream_x mode init_x (mk_inner evs) then
+    Nd [Nd []; Nn 1; olist out_tr (fst (fst (drain_x (poll_cap evs) init_x (mk_inner evs))))]
+  else
+    let '(l, b, X, i) := hyper_client_x (poll_cap evs) mode init_x (mk_inner evs) in
+    Nd [olist out_tr l; obool b;
+        olist out_tr (if b then fst (fst (drain_x (poll_cap evs) X i)) else [])].
+
+(* the capacity of HeaderMap::extend: an in-body trailers frame with [n] distinct names, then
+   HTTP trailers of the wrapped body with one name - a new one ([fresh]) or the first of the
+   frame.  Proofs/WebClient.v (extend_capacity) shows that this is what [run_x] gives. *)
+Definition obs_extend_capacity (n : N) (fresh : bool) : tr :=
+  if HM_MAX_NAMES <=? n then Nd [Nn 99]
+  else Nd [Nn 1; Nn (if fresh || (n =? 0) then n + 1 else n)].
+
+(* ---------- the caller's view: tonic's client over this body ---------- *)
+Module StackTexts.
+Import String.
+Local Open Scope string_scope.
+Definition T_AFTER : list N := Eval vm_compute in bytes_of_string "tonic-web: unexpected data after trailers".
+Definition T_FLAG : list N := Eval vm_compute in bytes_of_string "Invalid header bit ".
+Definition T_EOF : list N := Eval vm_compute in bytes_of_string "tonic-web: unexpected EOF, incomplete frame".
+Definition T_INNER : list N := Eval vm_compute in bytes_of_string "tonic-web: ".
+Definition T_NOVALUE : list N := Eval vm_compute in bytes_of_string "trailers couldn't parse value".
+Definition T_NAME : list N := Eval vm_compute in bytes_of_string "Unable to parse HeaderName: ".
+Definition T_VALUE : list N := Eval vm_compute in bytes_of_string "Unable to parse HeaderValue: ".
+Definition T_NOTRAILERS : list N := Eval vm_compute in bytes_of_string "tonic-web: unexpected EOF, missing trailers".
+End StackTexts.
+Export StackTexts.
+
+(* the Status that an error of this body is: always INTERNAL; of its message the fixed prefix
+   (the harness cuts the implementation's message after the same prefix) *)
+Definition werr_text (e : werr) : list N :=
+  match e with
+  | E_DataAfterTrailers => T_AFTER
+  | E_BadFlag _ => T_FLAG
+  | E_EOF => T_EOF
+  | E_Inner => T_INNER
+  | E_NoValue => T_NOVALUE
+  | E_Name => T_NAME
+  | E_Value => T_VALUE
+  | E_NoTrailers => T_NOTRAILERS
+  end.
+Definition werr_status (e : werr) : Status.status :=
+  Status.mkStatus StatusTables.Code_Internal (werr_text e) [] [].
+
+(* the frames a consumer gets from this body, as a scripted body for Model/Decoder.v: the
+   items of [run_x] up to the first None / Err; afterwards the body answers None for ever
+   (c17_webc_error_final, c17_webc_end_final), which is what a script that has run out does *)
+Definition bev_of (o : out) : list Decoder.bev :=
+  match o with
+  | OData d => [Decoder.BData d]
+  | OTrailers t => [Decoder.BTrailers t]
+  | OErr e => [Decoder.BErr (werr_status e)]
+  | _ => []
+  end.
+Definition is_abort (o : out) : bool :=
+  match o with OPanic | OOutOfFuel => true | _ => false end.
+Definition data_len (o : out) : nat := match o with OData d => length d | _ => O end.
+Definition stack_fuel (items : list out) : nat :=
+  (2 * length items + list_sum (map data_len items) / 5 + 6)%nat.
+
+(* the client API over a scripted body, default configuration, identity codec *)
+Definition stack_unary (http : N) (headers : hm) (script : list Decoder.bev) (fuel : nat)
+  : Call.client_result (list N) :=
+  Call.client_call (list N) Call.deser_id Call.no_decompress Call.default_side Call.Unary
+    http headers script fuel.
+
+Inductive stream_result :=
+| SRErr (st : Status.status)                       (* server_streaming() itself failed *)
+| SRStream (md : hm) (ms : list (list N)) (e : Status.status + option hm)
+                                                   (* the messages; then the status that ended the
+                                                      stream, or Ok and what trailers() gives *)
+| SRHang
+| SRPanic.
+Definition stack_streaming (http : N) (headers : hm) (script : list Decoder.bev) (fuel : nat)
+  : stream_result :=
+  match Call.create_response Call.default_side http headers with
+  | Call.CrePanic => SRPanic
+  | Call.CreErr st => SRErr st
+  | Call.CreStream d0 =>
+      let '(ms, c) := Call.collect (list N) Call.deser_id Call.no_decompress fuel script
+                        (Decoder.mkB 0) d0 in
+      match c with
+      | Call.CEnd d' _ _ => SRStream headers ms (inr (Decoder.d_trailers d'))
+      | Call.CErr st _ _ _ => SRStream headers ms (inl st)
+      | Call.CUnread | Call.CHang => SRHang
+      | Call.CPanic => SRPanic
+      end
+  end.
+Definition stream_result_obs (r : stream_result) : tr :=
+  match r with
+  | SRErr st => Nd [Nn 0; Call.status_obs2 st]
+  | SRStream md ms (inr t) => Nd [Nn 2; hm_canon md; Nd (map Bs ms); Nd [Nn 0; oopt hm_canon t]]
+  | SRStream md ms (inl st) => Nd [Nn 2; hm_canon md; Nd (map Bs ms); Nd [Nn 1; Call.status_obs2 st]]
+  | SRHang => Nd [Nn 8]
+  | SRPanic => Nd [Nn 9]
+  end.
+
+(* tonic::client::Grpc over GrpcWebClientService over an inner service that answers HTTP status
+   [http], headers [headers] and the scripted body [evs].
+   [shn] = 0: unary() - the message with the merged metadata, or the status;
+   otherwise: server_streaming() read to its end with message(), then trailers() *)
+Definition obs_stack (shn http : N) (headers : hm) (evs : list ev) : tr :=
+  let items := run_x evs in
+  if existsb is_abort items then Nd [Nn 9]
+  else
+    let script := flat_map bev_of items in
+    let fuel := stack_fuel items in
+    if shn =? 0 then Call.result_obs (stack_unary http headers script fuel)
+    else stream_result_obs (stack_streaming http headers script fuel).
